@@ -66,7 +66,7 @@ def plan(tier):
         "rule": "for every legal (firstcond, mask) [%d pairs] x all 16 NZCV x every instruction sequence of length "
                 "block length + 1 over the menu: co-simulate ref.model.step and emulate_cycle, compare the whole snapshot "
                 "after every step (handlers at the vectors return with SUBS PC,LR); state = (itstate, nzcv, sequence, step)" % len(its),
-        "bounds": {"menu": [m[0] for m in menu(0)][:6] + ["msr32", "branch / smc / bx to ARM state (last slot only)"], "quick_menu": "all 7 items for block length <= 2, first 3 for longer blocks", "it_pairs": len(its), "nzcv": "8 values on which every condition takes both outcomes (quick), all 16 (thorough)",
+        "bounds": {"menu": [m[0] for m in menu(0)][:6] + ["msr32", "branch / smc / bx to ARM state (last slot only)"], "quick_menu": "all 7 items for block length <= 2, first 3 for longer blocks", "thorough_menu": "7 items for block length <= 3, 6 (no msr32 / bx-arm) for four-instruction blocks", "it_pairs": len(its), "nzcv": "8 values on which every condition takes both outcomes (quick), all 16 (thorough)",
                    "steps_per_program": "block length + 1 instruction after the block + handler returns (cap 12)",
                    "after_block_slot": "all menu items for block length <= 3; {alu16, alu32, svc} after a 4-instruction block"},
         "exhaustive": True,
@@ -133,10 +133,10 @@ def programs(res, fc, mask, per, tier="quick"):
     slots = []
     for s in range(n + 1):
         m = menu(s)[:min(per, 6)]
-        if per > 3:
-            m = m + [menu(s)[8]]
+        if per > 3 and n <= 3:
+            m = m + [menu(s)[8]]            # (four-instruction blocks keep the six-item menu: budget of the thorough tier)
         if s == n - 1 and have_branch and per >= 3:
-            m = m + [menu(s)[7], menu(s)[6], menu(s)[9]]
+            m = m + [menu(s)[7], menu(s)[6]] + ([menu(s)[9]] if n <= 3 or per == 3 else [])
         if s == n == 4 and per > 3:
             m = [m[0], m[1], m[3]]          # after a 4-instruction block: ALU16 (sets flags again), ALU32, SVC
         slots.append(m)
